@@ -169,7 +169,14 @@ class Enc:
 
 
 def mkval(d):
-    return attr.NOTHING if d == "N" else Tok(d)
+    """Value descriptors: n -> opaque token n, "N" -> NOTHING, "Z" -> None, "F" -> False."""
+    if d == "N":
+        return attr.NOTHING
+    if d == "Z":
+        return None
+    if d == "F":
+        return False
+    return Tok(d)
 
 
 # --------------------------------------------------------------------------------------
@@ -566,10 +573,15 @@ def subsets(rng, items, cap):
 
 
 class Toks:
-    def __init__(self):
+    """Fresh token numbers; now and then a falsy constant instead (None / False)."""
+
+    def __init__(self, rng=None):
         self.n = 0
+        self.rng = rng
 
     def __call__(self):
+        if self.rng is not None and self.rng.random() < 0.06:
+            return self.rng.choice(["Z", "F"])
         self.n += 1
         return self.n
 
@@ -599,7 +611,7 @@ def plans_for(cut, rng, tier):
     if cut.frozen and names and rng.random() < 0.2:
         hists.append([("s", rng.choice(names), None)])          # assignment fails: no change
     for hi, hist in enumerate(hists):
-        tk = Toks()
+        tk = Toks(rng)
         kw = [(n, tk()) for n, k, d in sg if (not d) or rng.random() < 0.6]
         if kw and rng.random() < 0.05:
             j = rng.randrange(len(kw))
@@ -674,7 +686,7 @@ _dist = Counter()
 
 def generate(tier, seed):
     rng = random.Random(seed)
-    n_chains = 170 if tier == "quick" else 1500
+    n_chains = 260 if tier == "quick" else 1500
     uidc = [0]
     cases, props = [], []
     _dist.clear()
